@@ -86,6 +86,14 @@ impl Gen<'_> {
             ElemKind::U64 => MVal::Int(100 + self.next_val),
             ElemKind::Str => MVal::Str(format!("s{}", self.next_val)),
             ElemKind::T24 | ElemKind::Big => MVal::Obj(1000 + self.next_val),
+            ElemKind::F64 => {
+                // mostly distinct ordinary values; sometimes the values on which bitwise and IEEE equality differ
+                if self.dups && self.r.chance(1, 3) {
+                    MVal::F((*self.r.pick(&[0.0f64, -0.0, f64::NAN, 1.5, -7.25, f64::INFINITY])).to_bits())
+                } else {
+                    MVal::F((100.5 + self.next_val as f64).to_bits())
+                }
+            }
             ElemKind::Zst => MVal::Unit,
             ElemKind::Nested => MVal::Int(0), // replaced by caller
         };
@@ -100,6 +108,7 @@ impl Gen<'_> {
                 ElemKind::U64 => MVal::Int(99),
                 ElemKind::Str => MVal::Str("absent".into()),
                 ElemKind::T24 | ElemKind::Big => MVal::Obj(999),
+                ElemKind::F64 => MVal::F((*self.r.pick(&[99.25f64, 0.0, -0.0, f64::NAN])).to_bits()),
                 ElemKind::Zst => MVal::Unit,
                 ElemKind::Nested => MVal::Int(0),
             }
@@ -124,6 +133,8 @@ fn elem_for(r: &mut Rng, with_nested: bool) -> ElemKind {
             ElemKind::Nested,
             ElemKind::Nested,
             ElemKind::Big,
+            ElemKind::F64,
+            ElemKind::F64,
         ])
     } else {
         *r.pick(&[
@@ -138,6 +149,7 @@ fn elem_for(r: &mut Rng, with_nested: bool) -> ElemKind {
             ElemKind::T24,
             ElemKind::Zst,
             ElemKind::Big,
+            ElemKind::F64,
         ])
     }
 }
@@ -313,8 +325,8 @@ pub fn generate_c15(run_seed: u64, thorough: bool, faults: bool) -> ListDesc {
     for k in 0..n_inner {
         m.heap.new_list(inner_init[k].clone());
     }
-    let script_ok = |op: &Op| -> bool { !matches!(op, Op::InnerPush { .. } | Op::FromVec { .. } | Op::CloneH { .. } | Op::DropH { .. } | Op::ToVec { .. } | Op::Iter { .. } | Op::Debug { .. }) };
-    let rust_ok = |op: &Op| -> bool { !matches!(op, Op::BranchLit { .. } | Op::Lit9 { .. } | Op::Join { .. } | Op::ForCount { .. } | Op::ForSum { .. } | Op::ForPush { .. } | Op::ForFind { .. }) };
+    let script_ok = |op: &Op| -> bool { !matches!(op, Op::IterWithPush { .. } | Op::InnerPush { .. } | Op::FromVec { .. } | Op::CloneH { .. } | Op::DropH { .. } | Op::ToVec { .. } | Op::Iter { .. } | Op::Debug { .. }) };
+    let rust_ok = |op: &Op| -> bool { !matches!(op, Op::TmpGet { .. } | Op::BranchLit { .. } | Op::Lit9 { .. } | Op::Join { .. } | Op::ForCount { .. } | Op::ForSum { .. } | Op::ForPush { .. } | Op::ForFind { .. }) };
     for _ in 0..nops {
         let filled: Vec<usize> = (0..nslots).filter(|&s| m.slots[s].is_some()).collect();
         let any = |g: &mut Gen| g.r.below(nslots as u64) as usize;
@@ -342,11 +354,18 @@ pub fn generate_c15(run_seed: u64, thorough: bool, faults: bool) -> ListDesc {
                     1 => len.saturating_sub(1),
                     2 => len,
                     3 => len + 1,
-                    4 => u64::MAX - g.r.below(2),
+                    4 => match g.r.below(5) {
+                        0 => u64::MAX - g.r.below(2),
+                        // indices whose byte offset wraps around for 8-, 16- and 24-byte elements
+                        1 => (1u64 << 61) + g.r.below(len + 1),
+                        2 => (1u64 << 60) + g.r.below(len + 1),
+                        3 => (1u64 << 63) + g.r.below(len + 1),
+                        _ => (1u64 << 32) + g.r.below(len + 1),
+                    },
                     _ => g.r.below(len + 2),
                 }
             };
-            match g.r.weighted(&[22, 12, 3, 2, 2, 6, 5, 4, 8, 7, 5, 3, 2, 3, 4, 3, 3, 3, 3, 4]) {
+            match g.r.weighted(&[22, 12, 3, 2, 2, 6, 5, 4, 8, 7, 5, 3, 2, 3, 4, 3, 3, 3, 3, 4, 3, 3]) {
                 0 => Op::Push { h, v: fresh(&mut g) },
                 1 => Op::Get { h, i: idx(&mut g) },
                 2 => Op::Len { h },
@@ -389,6 +408,10 @@ pub fn generate_c15(run_seed: u64, thorough: bool, faults: bool) -> ListDesc {
                     if len > 20 { Op::Len { h } } else { Op::ForPush { h, n } }
                 }
                 18 => Op::Concat { a: h, b: h, dst: Some(any(&mut g)), plus: false },
+                20 => Op::TmpGet { vals: (0..2).map(|_| fresh(&mut g)).collect(), i: g.r.below(3) },
+                21 => {
+                    if len > 30 { Op::Len { h } } else { Op::IterWithPush { h, k: g.r.below(len + 2), v: fresh(&mut g) } }
+                }
                 _ => {
                     // open finding F6: a zero-sized value handed to a script that does not pass it on is
                     // never dropped; that pattern is replayed from findings/ and left out here
@@ -456,6 +479,7 @@ pub fn execute(d: &ListDesc, w: &Arc<Warm>, keep_trace: bool) -> RunResult {
         ElemKind::Zst => exec_t::<Val<Zst>>(d, w, keep_trace),
         ElemKind::Nested => exec_t::<List<u64>>(d, w, keep_trace),
         ElemKind::Big => exec_t::<Val<Big>>(d, w, keep_trace),
+        ElemKind::F64 => exec_t::<f64>(d, w, keep_trace),
     }
 }
 
@@ -488,6 +512,8 @@ pub fn op_label(op: &Op, origin: &Origin) -> String {
         Op::Lit3 { .. } => "literal",
         Op::Lit9 { .. } => "literal9",
         Op::BranchLit { .. } => "branch-literal",
+        Op::TmpGet { .. } => "get-on-temporary",
+        Op::IterWithPush { .. } => "into_iter-with-push",
         Op::CloneH { .. } => "clone",
         Op::DropH { .. } => "drop",
         Op::Push { .. } => "push",
@@ -910,7 +936,7 @@ pub fn shrink(d: &ListDesc) -> Vec<ListDesc> {
     for t in 0..d.threads.len() {
         for k in 0..d.threads[t].ops.len() {
             let (op, origin) = &d.threads[t].ops[k];
-            if *origin == Origin::Script && !matches!(op, Op::Join { .. } | Op::ForCount { .. } | Op::ForSum { .. } | Op::ForPush { .. } | Op::ForFind { .. } | Op::Concat { plus: true, .. } | Op::Eq { ne: true, .. } | Op::Lit3 { .. } | Op::Lit9 { .. } | Op::BranchLit { .. }) {
+            if *origin == Origin::Script && !matches!(op, Op::Join { .. } | Op::ForCount { .. } | Op::ForSum { .. } | Op::ForPush { .. } | Op::ForFind { .. } | Op::Concat { plus: true, .. } | Op::Eq { ne: true, .. } | Op::Lit3 { .. } | Op::Lit9 { .. } | Op::BranchLit { .. } | Op::TmpGet { .. }) {
                 let mut c = d.clone();
                 c.threads[t].ops[k].1 = Origin::Rust;
                 out.push(c);
